@@ -34,6 +34,40 @@ def formatter_term_map(ctx):
     return it, out
 
 
+def rule_K_PUNCT_accessors(ctx):
+    """the accessor half of K-PUNCT (get_punctuation / get_truth / get_stamp / get_term of the enum Sentence); also run by C16, whose
+    renderer reads the punctuation through get_punctuation (seed c16-z: the Quest arm returned Question, two sentences render alike)"""
+    f = ctx.facts
+    ctx.rule("K-PUNCT", "Sentence::from_punctuation, get_punctuation, get_truth, get_stamp agree: punctuation P <-> sentence variant P, "
+             "truth kept for Judgement/Goal only, operands in their own positions")
+    sadt = f.adts["enum_narsese::sentence::Sentence"]
+    sfields = {v["name"]: [x["ty"].rsplit("::", 1)[-1] for x in v["fields"]] for v in sadt["variants"]}
+    for tr, nm in (("GetPunctuation", "get_punctuation"), ("GetTruth", "get_truth"), ("GetStamp", "get_stamp"), ("GetTerm", "get_term")):
+        its = f.select(f.hir, nm, self_ty="enum_narsese::sentence::Sentence", trait=tr)
+        if len(its) != 1:
+            raise AnchorMissing("%s for Sentence" % nm)
+        ctx.fn(its[0])
+        m4 = hir.top_match(its[0])
+        for v, arm, pat in hir.arms_by_variant(m4):
+            b = strip(arm["body"])
+            binds = hir.pat_bindings(pat)
+            if nm == "get_punctuation":
+                e = strip(b["e"]) if b["k"] == "AddrOf" else b
+                got = hir.variant_of(e["path"]) if e["k"] == "Path" else None
+                ctx.ob("K-PUNCT", "get_punctuation %s" % v, got == v, "returns %s" % got)
+            else:
+                tyname = {"get_truth": "Truth", "get_stamp": "Stamp", "get_term": "Term"}[nm]
+                pos = sfields[v].index(tyname) if tyname in sfields[v] else None
+                if nm == "get_truth":
+                    if pos is None:
+                        ok = b["k"] == "Path" and hir.variant_of(b["path"]) == "None"
+                    else:
+                        ok = b["k"] == "Call" and callee_name(b) == "Some" and field_path(b["args"][0]) == (binds[pos],) if len(binds) > pos else False
+                else:
+                    ok = pos is not None and len(binds) > pos and field_path(b) == (binds[pos],)
+                ctx.ob("K-PUNCT", "%s %s" % (nm, v), ok, "returns %s; bindings %s" % (hirpp_s(b), binds))
+
+
 def a_count_parser(ctx):
     """enum parser: the number of parsed floats selects the constructor of the same arity, floats in order"""
     ctx.rule("A-COUNT", "the number of parsed floats selects the constructor of the same arity, with the floats in order; the formatter "
@@ -228,30 +262,7 @@ def run(ctx):
         args = [field_path(a) for a in b.get("args", [])]
         want = [(x.lower(),) for x in sfields.get(v, [])]
         ctx.ob("K-PUNCT", "from_punctuation %s" % v, rv == v and args == want, "builds %s%s, expected %s%s" % (rv, args, v, want))
-    for tr, nm in (("GetPunctuation", "get_punctuation"), ("GetTruth", "get_truth"), ("GetStamp", "get_stamp"), ("GetTerm", "get_term")):
-        its = f.select(f.hir, nm, self_ty="enum_narsese::sentence::Sentence", trait=tr)
-        if len(its) != 1:
-            raise AnchorMissing("%s for Sentence" % nm)
-        ctx.fn(its[0])
-        m4 = hir.top_match(its[0])
-        for v, arm, pat in hir.arms_by_variant(m4):
-            b = strip(arm["body"])
-            binds = hir.pat_bindings(pat)
-            if nm == "get_punctuation":
-                e = strip(b["e"]) if b["k"] == "AddrOf" else b
-                got = hir.variant_of(e["path"]) if e["k"] == "Path" else None
-                ctx.ob("K-PUNCT", "get_punctuation %s" % v, got == v, "returns %s" % got)
-            else:
-                tyname = {"get_truth": "Truth", "get_stamp": "Stamp", "get_term": "Term"}[nm]
-                pos = sfields[v].index(tyname) if tyname in sfields[v] else None
-                if nm == "get_truth":
-                    if pos is None:
-                        ok = b["k"] == "Path" and hir.variant_of(b["path"]) == "None"
-                    else:
-                        ok = b["k"] == "Call" and callee_name(b) == "Some" and field_path(b["args"][0]) == (binds[pos],) if len(binds) > pos else False
-                else:
-                    ok = pos is not None and len(binds) > pos and field_path(b) == (binds[pos],)
-                ctx.ob("K-PUNCT", "%s %s" % (nm, v), ok, "returns %s; bindings %s" % (hirpp_s(b), binds))
+    rule_K_PUNCT_accessors(ctx)
 
     maps.rule_K_COPULAS(ctx)
     # ---- clause 2: tables unambiguous ---------------------------------------------
